@@ -24,6 +24,7 @@ import (
 	"com.tuntun.rangers/node/src/common"
 	crypto "com.tuntun.rangers/node/src/eth_crypto"
 	"com.tuntun.rangers/node/src/middleware/types"
+	"com.tuntun.rangers/node/src/service"
 	"com.tuntun.rangers/node/src/storage/account"
 	"com.tuntun.rangers/node/src/vm"
 	eu "verif/harness/internal/evmutil"
@@ -36,6 +37,7 @@ const (
 	maxNodes = 12
 	plainA   = 13 // ids of plain (code-less, initially absent) accounts
 	plainB   = 14
+	idMiner  = 40 // the contract that is a miner's account (custom-opcode scenarios)
 )
 
 // ---------------------------------------------------------------- tree model
@@ -173,6 +175,34 @@ func (c *compiler) body(n *node, isCreate bool) []byte {
 			a.Op(eu.PUSH0, eu.PUSH0, eu.PUSH0, eu.PUSH0).PushInt(1).PushInt(uint64(0x1000+p)).PushInt(30000).Op(eu.CALL, eu.POP)
 		case it.Mut == "destroy":
 			a.PushInt(uint64(0x1000 + plainA)).Op(eu.SELFDESTRUCT)
+		case it.Mut == "precall":
+			// a call instruction whose callee is a precompile: kind = A%4 (call, callcode, delegate, static),
+			// outcome class = (A/4)%4 (succeeds / blake2F with a wrong input length / ecrecover with only the
+			// stipend or nothing to pay its price / bn256Add with points that are not on the curve), value V
+			kind, class := it.A%4, (it.A/4)%4
+			addr, inLen, gas := 4, 0, 50000
+			switch class {
+			case 1:
+				addr, inLen = 9, 5
+			case 2:
+				addr, gas = 1, 0
+			case 3:
+				addr, inLen = 6, 128
+				a.Push(bytes32(0xff)).PushInt(0).Op(eu.MSTORE).Push(bytes32(0xff)).PushInt(32).Op(eu.MSTORE)
+				a.Push(bytes32(0xff)).PushInt(64).Op(eu.MSTORE).Push(bytes32(0xff)).PushInt(96).Op(eu.MSTORE)
+			}
+			a.PushInt(0).PushInt(0).PushInt(uint64(inLen)).PushInt(0)
+			switch kind {
+			case 0:
+				a.PushInt(uint64(it.V % 2)).PushInt(uint64(addr)).PushInt(uint64(gas)).Op(eu.CALL)
+			case 1:
+				a.PushInt(uint64(it.V % 2)).PushInt(uint64(addr)).PushInt(uint64(gas)).Op(eu.CALLCODE)
+			case 2:
+				a.PushInt(uint64(addr)).PushInt(uint64(gas)).Op(eu.DELEGATECALL)
+			default:
+				a.PushInt(uint64(addr)).PushInt(uint64(gas)).Op(eu.STATICCALL)
+			}
+			a.Op(eu.POP)
 		default:
 			vutil.Fatalf("unknown item %+v", it)
 		}
@@ -222,11 +252,20 @@ func (c *compiler) body(n *node, isCreate bool) []byte {
 	return a.Bytes()
 }
 
+func bytes32(b byte) []byte {
+	out := make([]byte, 32)
+	for i := range out {
+		out[i] = b
+	}
+	return out
+}
+
 // ----------------------------------------------------------------- projection
 
 type world struct {
-	st    *account.AccountDB
-	addrs []common.Address // universe, index = id
+	st      *account.AccountDB
+	minerID []byte
+	addrs   []common.Address // universe, index = id
 }
 
 func newWorld(st *account.AccountDB) *world {
@@ -235,6 +274,10 @@ func newWorld(st *account.AccountDB) *world {
 	for i := 1; i <= plainB; i++ {
 		w.addrs = append(w.addrs, eu.Addr(i))
 	}
+	for i := 1; i <= 18; i++ { // the precompile addresses: a value-bearing call creates / funds these accounts
+		w.addrs = append(w.addrs, precompileAddr(i))
+	}
+	w.addrs = append(w.addrs, eu.Addr(idMiner), authorityAddr())
 	// addresses the contracts can create: CREATE by contract i at nonces 0..2, CREATE by those at nonce 1
 	for i := 1; i <= maxNodes; i++ {
 		for n := uint64(0); n <= 2; n++ {
@@ -244,6 +287,19 @@ func newWorld(st *account.AccountDB) *world {
 	}
 	return w
 }
+
+func precompileAddr(i int) common.Address {
+	var a common.Address
+	a[19] = byte(i)
+	return a
+}
+
+// a fixed key: the authority of the AUTH / AUTHCALL scenario
+var authorityKey = crypto.ToECDSAUnsafe(crypto.Keccak256([]byte("verif-c12-authority")))
+
+func authorityAddr() common.Address { return crypto.PubkeyToAddress(authorityKey.PublicKey) }
+
+var whole = new(big.Int).Exp(big.NewInt(10), big.NewInt(18), nil)
 
 func (w *world) id(a common.Address) int {
 	for i, x := range w.addrs {
@@ -276,10 +332,13 @@ func slot(i int) common.Hash { return common.BigToHash(big.NewInt(int64(i))) }
 func (w *world) state() []map[string]interface{} {
 	out := make([]map[string]interface{}, 0)
 	for i, a := range w.addrs {
-		ex := w.st.Exist(a)
+		// an account exists in the sense of the property when it is not empty (EIP-161: the zero-value touch of a call -
+		// also the one EVM.Call gives a precompile it runs - leaves an empty account object, which is no account)
+		ex := w.st.Exist(a) && !w.st.Empty(a)
 		rec := map[string]interface{}{"id": i, "exists": ex, "bal": smallBig(w.st.GetBalance(a)), "nonce": int(w.st.GetNonce(a)),
-			"code": len(w.st.GetCode(a)), "dead": w.st.HasSuicided(a),
-			"s0": small(w.st.GetState(a, slot(0))), "s1": small(w.st.GetState(a, slot(1))), "s2": small(w.st.GetState(a, slot(2))),
+			"code": len(w.st.GetCode(a)), "dead": w.st.HasSuicided(a), "balw": smallBig(new(big.Int).Div(w.st.GetBalance(a), whole)),
+			"stake": w.stakeOf(a),
+			"s0":    small(w.st.GetState(a, slot(0))), "s1": small(w.st.GetState(a, slot(1))), "s2": small(w.st.GetState(a, slot(2))),
 			"t0": small(w.st.GetTransientState(a, slot(0))), "t1": small(w.st.GetTransientState(a, slot(1))), "t2": small(w.st.GetTransientState(a, slot(2)))}
 		if ex || rec["bal"] != 0 || rec["nonce"] != 0 || rec["code"] != 0 || rec["s0"] != 0 || rec["s1"] != 0 || rec["s2"] != 0 ||
 			rec["t0"] != 0 || rec["t1"] != 0 || rec["t2"] != 0 {
@@ -287,6 +346,18 @@ func (w *world) state() []map[string]interface{} {
 		}
 	}
 	return out
+}
+
+// stakeOf: the stake of the miner whose account is a (only looked up for the miner contract of the custom-opcode scenarios)
+func (w *world) stakeOf(a common.Address) int {
+	if a != eu.Addr(idMiner) || w.minerID == nil {
+		return 0
+	}
+	m := service.MinerManagerImpl.GetMiner(w.minerID, w.st)
+	if m == nil {
+		return -1
+	}
+	return int(m.Stake)
 }
 
 func (w *world) access() []int {
@@ -319,16 +390,23 @@ var writeOps = map[byte]bool{eu.SSTORE: true, 0xa0: true, 0xa1: true, 0xa2: true
 
 type observer struct {
 	*eu.Recorder
-	w        *world
-	tr       *vutil.Trace
-	lastExit map[int]string // depth -> error class of the last frame that exited there
-	exited   map[int]bool
-	stats    map[string]int
+	preCustom map[int][]map[string]interface{} // depth -> projection before a custom opcode in static context
+	w         *world
+	tr        *vutil.Trace
+	lastExit  map[int]string // depth -> error class of the last frame that exited there
+	exited    map[int]bool
+	stats     map[string]int
 }
 
 func (o *observer) StepCharged(s *vm.VerifStep) {
 	o.Recorder.StepCharged(s)
 	op := byte(s.Op)
+	if customOps[op] && o.InStatic() {
+		if o.preCustom == nil {
+			o.preCustom = map[int][]map[string]interface{}{}
+		}
+		o.preCustom[s.Depth] = o.w.state()
+	}
 	if callOps[op] {
 		delete(o.exited, s.Depth+1)
 		o.tr.Emit(map[string]interface{}{"event": "Before", "depth": s.Depth, "op": int(op), "self": o.w.id(s.Address),
@@ -351,6 +429,14 @@ func (o *observer) StepDone(s *vm.VerifStep, res []byte, err error) {
 	if err == nil && op >= 0xa0 && op <= 0xa4 {
 		o.stats["logs"]++
 	}
+	if customOps[op] && o.InStatic() {
+		// the node's own opcodes have no write flag: report them when they did change the state in static context
+		if pre, ok := o.preCustom[s.Depth]; ok && !sameState(pre, o.w.state()) {
+			o.tr.Emit(map[string]interface{}{"event": "StaticWrite", "depth": s.Depth, "op": int(op), "stage": "custom"})
+			o.stats["custom_static_changes"]++
+		}
+		delete(o.preCustom, s.Depth)
+	}
 	if callOps[op] {
 		ok := len(s.Stack) > 0 && !s.Stack[len(s.Stack)-1].IsZero()
 		cerr := "noframe"
@@ -372,12 +458,79 @@ func (o *observer) StepDone(s *vm.VerifStep, res []byte, err error) {
 
 var curTx common.Hash
 
+// execTx runs one transaction the way core.VMExecutor does (Prepare, EVM.Call, GetLogs) with the observer on.
+func execTx(st *account.AccountDB, w *world, tr *vutil.Trace, stats map[string]int, sn, i int, entry common.Address, input []byte,
+	hashes *[]common.Hash) {
+	curTx = common.BytesToHash([]byte(fmt.Sprintf("verif-tx-%d-%d", sn, i)))
+	*hashes = append(*hashes, curTx)
+	// what core.VMExecutor does before every transaction (Proposal013 active)
+	st.Prepare(curTx, common.Hash{}, i)
+	tr.Emit(map[string]interface{}{"event": "TxBegin", "tx": i + 1, "state": w.state(), "access": w.access(),
+		"logs": w.logIDs(st.GetLogs(curTx))})
+	rec := eu.NewRecorder(tr, eu.Options{Frames: true, MaxSteps: 1, MaxFaults: 1,
+		StepFilter: func(int, byte) bool { return false }})
+	obs := &observer{Recorder: rec, w: w, tr: tr, lastExit: map[int]string{}, exited: map[int]bool{}, stats: stats}
+	rec.Opt.EnterExtra = func(f *vm.VerifFrame) map[string]interface{} {
+		if rec.InStatic() {
+			return map[string]interface{}{"state": w.state(), "logs": w.logIDs(st.GetLogs(curTx))}
+		}
+		return nil
+	}
+	rec.Opt.ExitExtra = func(f *vm.VerifFrame, err error, logs []*types.Log) map[string]interface{} {
+		obs.lastExit[f.Depth] = eu.ErrClass(err)
+		obs.exited[f.Depth] = true
+		if rec.InStatic() {
+			return map[string]interface{}{"state": w.state(), "logs": w.logIDs(st.GetLogs(curTx))}
+		}
+		return nil
+	}
+	vm.VerifSetObserver(obs)
+	rec.BeginRun(i + 1)
+	evm := eu.NewEVM(st, height, txGas)
+	tr.Emit(map[string]interface{}{"event": "Before", "depth": 0, "op": -1, "self": 0, "ro": false, "state": w.state(),
+		"logs": w.logIDs(st.GetLogs(curTx))})
+	var (
+		err    error
+		retLog []*types.Log
+		panik  = ""
+	)
+	func() {
+		defer func() {
+			if p := recover(); p != nil {
+				panik = fmt.Sprintf("%v", p)
+			}
+		}()
+		_, _, retLog, err = evm.Call(vm.AccountRef(eu.Origin), entry, input, txGas, big.NewInt(0))
+	}()
+	vm.VerifSetObserver(nil)
+	if panik != "" {
+		vutil.Fatalf("host panic in scenario %d: %s", sn, panik)
+	}
+	cerr := eu.ErrClass(err)
+	if cerr == "" {
+		cerr = "none"
+	}
+	tr.Emit(map[string]interface{}{"event": "After", "depth": 0, "op": -1, "self": 0, "ok": err == nil, "cerr": cerr,
+		"state": w.state(), "logs": w.logIDs(st.GetLogs(curTx))})
+	prev := make([]int, 0)
+	for _, h := range (*hashes)[:i] {
+		prev = append(prev, len(st.GetLogs(h)))
+	}
+	tr.Emit(map[string]interface{}{"event": "TxEnd", "tx": i + 1, "ok": err == nil, "receipt": w.logIDs(st.GetLogs(curTx)),
+		"returned": w.logIDs(retLog), "prev": prev})
+	stats["txs"]++
+	if err != nil {
+		stats["failed_txs"]++
+	}
+}
+
 func main() {
 	out := flag.String("out", "trace.ndjson", "ndjson trace")
 	scratch := flag.String("scratch", "", "scratch directory for the node's stores")
 	script := flag.String("script", "", "TLC call histories (json list of token lists)")
 	nrand := flag.Int("random", 0, "seeded random scenarios")
 	salt := flag.Int64("salt", 0, "seed salt")
+	custom := flag.Bool("custom", false, "run the custom-opcode-in-static-context scenarios")
 	flag.Parse()
 	eu.Boot(*scratch)
 	tr := vutil.NewTrace(*out)
@@ -430,68 +583,11 @@ func main() {
 		}
 		var hashes []common.Hash
 		for i, rootID := range roots {
-			curTx = common.BytesToHash([]byte(fmt.Sprintf("verif-tx-%d-%d", sn, i)))
-			hashes = append(hashes, curTx)
-			// what core.VMExecutor does before every transaction (Proposal013 active)
-			st.Prepare(curTx, common.Hash{}, i)
-			tr.Emit(map[string]interface{}{"event": "TxBegin", "tx": i + 1, "state": w.state(), "access": w.access(),
-				"logs": w.logIDs(st.GetLogs(curTx))})
-			rec := eu.NewRecorder(tr, eu.Options{Frames: true, MaxSteps: 1, MaxFaults: 1,
-				StepFilter: func(int, byte) bool { return false }})
-			obs := &observer{Recorder: rec, w: w, tr: tr, lastExit: map[int]string{}, exited: map[int]bool{}, stats: stats}
-			rec.Opt.EnterExtra = func(f *vm.VerifFrame) map[string]interface{} {
-				if rec.InStatic() {
-					return map[string]interface{}{"state": w.state(), "logs": w.logIDs(st.GetLogs(curTx))}
-				}
-				return nil
-			}
-			rec.Opt.ExitExtra = func(f *vm.VerifFrame, err error, logs []*types.Log) map[string]interface{} {
-				obs.lastExit[f.Depth] = eu.ErrClass(err)
-				obs.exited[f.Depth] = true
-				if rec.InStatic() {
-					return map[string]interface{}{"state": w.state(), "logs": w.logIDs(st.GetLogs(curTx))}
-				}
-				return nil
-			}
-			vm.VerifSetObserver(obs)
-			rec.BeginRun(i + 1)
-			evm := eu.NewEVM(st, height, txGas)
-			tr.Emit(map[string]interface{}{"event": "Before", "depth": 0, "op": -1, "self": 0, "ro": false, "state": w.state(),
-				"logs": w.logIDs(st.GetLogs(curTx))})
-			var (
-				err    error
-				retLog []*types.Log
-				panik  = ""
-			)
-			func() {
-				defer func() {
-					if p := recover(); p != nil {
-						panik = fmt.Sprintf("%v", p)
-					}
-				}()
-				_, _, retLog, err = evm.Call(vm.AccountRef(eu.Origin), eu.Addr(rootID), nil, txGas, big.NewInt(0))
-			}()
-			vm.VerifSetObserver(nil)
-			if panik != "" {
-				vutil.Fatalf("host panic in scenario %d: %s", sn, panik)
-			}
-			cerr := eu.ErrClass(err)
-			if cerr == "" {
-				cerr = "none"
-			}
-			tr.Emit(map[string]interface{}{"event": "After", "depth": 0, "op": -1, "self": 0, "ok": err == nil, "cerr": cerr,
-				"state": w.state(), "logs": w.logIDs(st.GetLogs(curTx))})
-			prev := make([]int, 0)
-			for _, h := range hashes[:i] {
-				prev = append(prev, len(st.GetLogs(h)))
-			}
-			tr.Emit(map[string]interface{}{"event": "TxEnd", "tx": i + 1, "ok": err == nil, "receipt": w.logIDs(st.GetLogs(curTx)),
-				"returned": w.logIDs(retLog), "prev": prev})
-			stats["txs"]++
-			if err != nil {
-				stats["failed_txs"]++
-			}
+			execTx(st, w, tr, stats, sn, i, eu.Addr(rootID), nil, &hashes)
 		}
+	}
+	if *custom {
+		customScenarios(tr, stats)
 	}
 	tr.Close()
 	keys := make([]string, 0)
@@ -514,11 +610,15 @@ func randomNode(r *rand.Rand, depth int, budget *int, static bool) *node {
 	for k := r.Intn(4); k > 0; k-- {
 		switch x := r.Intn(10); {
 		case x < 5:
-			muts := []string{"sstore", "tstore", "log", "transfer", "sstore", "log", "tload"}
+			muts := []string{"sstore", "tstore", "log", "transfer", "sstore", "log", "tload", "precall"}
 			if r.Intn(25) == 0 {
 				muts = append(muts, "destroy")
 			}
-			n.Items = append(n.Items, item{Mut: muts[r.Intn(len(muts))], A: r.Intn(3), V: r.Intn(3)})
+			it := item{Mut: muts[r.Intn(len(muts))], A: r.Intn(3), V: r.Intn(3)}
+			if it.Mut == "precall" {
+				it.A, it.V = r.Intn(16), r.Intn(2)
+			}
+			n.Items = append(n.Items, it)
 		default:
 			if depth < 4 && *budget > 0 {
 				*budget--
